@@ -127,10 +127,16 @@ Definition spec_recognise (L : locale) (t : text) : option sdesc :=
   end.
 
 (* ---------- when a model result and a spec description say the same ---------- *)
-Definition exp_value (ex : text) : Z :=
-  match ex with
-  | [] => 0
-  | c :: r => if c =? c_minus then - dec_val 0 r else if c =? c_plus then dec_val 0 r else dec_val 0 ex
+Definition exp_value (ex : text) : Z := lit_exp ex.
+
+(* a number a cell can hold: its magnitude is below the binary64 overflow threshold
+   2^1024 - 2^970 (exact integer comparison, see Recognise.dec_overflows); a typed numeral beyond
+   it cannot be "stored as that number" and stays text *)
+Definition spec_representable (d : sdesc) : bool := negb (dec_overflows (s_int d) (s_frac d) (s_exp d)).
+Definition spec_stored (L : locale) (t : text) : option sdesc :=
+  match spec_recognise L t with
+  | Some d => if spec_representable d then Some d else None
+  | None => None
   end.
 
 Definition affix_of_kind (k : kind) : option affix :=
@@ -208,17 +214,10 @@ Definition double_sign (L : locale) (t : text) : bool :=
   let '(b, signed) := number_body L t in
   negb signed && match b with c :: _ => (c =? c_minus) || (c =? c_plus) | [] => false end.
 
-(* F06: "-cur" followed by a number with an exponent marker *)
-Definition negcur_exponent (L : locale) (t : text) : bool :=
-  let '(b, signed) := number_body L t in
-  negb signed && existsb is_e b.
-
 Definition k_groups : text := [103; 114; 111; 117; 112; 115].             (* groups *)
 Definition k_dsign : text := [100; 115; 105; 103; 110].                   (* dsign *)
-Definition k_negexp : text := [110; 101; 103; 101; 120; 112].             (* negexp *)
 
 Definition known_class (L : locale) (t : text) : option text :=
   if double_sign L t then Some k_dsign
   else if ill_grouped L t then Some k_groups
-  else if negcur_exponent L t then Some k_negexp
   else None.
